@@ -1853,10 +1853,10 @@ def run(ctx):
     R.expect('M5-created-object-committed', 16)              # 12 local builders + 4 XML builder members
     R.expect('M7-no-meta-only-for-single-version-files', 1)  # Reader::m_read_metadata (set_option(read_meta))
     R.expect('M6-read-options-forwarded', 15)                # 6 ctor initialisers, 7 arguments handed on, 2 accessors
-    R.expect('Q1-access-under-lock', 8)
+    R.expect('Q1-access-under-lock', 6)  # same floor as C19 (a bare wait loop instead of a predicate lambda lowers the count)
     R.expect('Q2-insert-notifies-consumers', 1)
     R.expect('Q6-front-before-pop', 3)
-    R.expect('Q7-push-inserts', 3)
+    R.expect('Q7-push-inserts', 2)
 
 
 POSITIVE = ('c05_reader.cpp',)
